@@ -91,8 +91,19 @@ func verifDir() string {
 }
 
 // CPU-time rule (see DESIGN §2): a single case may burn this much CPU before it is re-run alone.
-const caseCPULimit = 90 * time.Second
-const soloCPULimit = 600 * time.Second
+var caseCPULimit = envSeconds("VH_CASE_CPU", 90)
+var soloCPULimit = envSeconds("VH_SOLO_CPU", 600)
+
+// envSeconds: the CPU limits can be lowered for the mutation self-test (tools/mutate.py), where hanging mutants are
+// frequent; the registered commands do not set these variables.
+func envSeconds(name string, def int) time.Duration {
+	if s := os.Getenv(name); s != "" {
+		if v, err := strconv.Atoi(s); err == nil && v > 0 {
+			return time.Duration(v) * time.Second
+		}
+	}
+	return time.Duration(def) * time.Second
+}
 
 func worker(a []string) int {
 	if len(a) < 7 {
